@@ -23,8 +23,8 @@ structure Mon where
   begun : List (BId × EId) := []        -- activations begun, in order
   tripped : List (BId × EId) := []      -- activations that hit the recursion guard (F2)
   aborted : List (BId × EId) := []      -- inline activations that were abandoned (F5)
-  abortedForeign : List (BId × EId) := []  -- … of an event that is not a descendant of the abandoning handler's event:
-                                        -- nothing cancels its pending results (descendants are cancelled with the handler, C10)
+  timedOut : List (EId × Nat) := []     -- events one of whose handlers recorded a timeout (which cancels the pending results
+                                        -- of the event's descendants), with the number of abandoned activations so far
   snaps : List (EId × List Res) := []   -- results of an event when it was first complete and signalled
   entries : List (EId × BId) := []      -- accepted dispatches that are not forwards: (event, entry bus)
   fwdRejected : Bool := false
@@ -161,7 +161,10 @@ def treeOutstanding (w : World) (c : EId) : Bool :=
     together with that handler, C10) -/
 def stuckSigs (w : World) (m : Mon) (e : EId) : List String :=
   (hangSigs w m e).filter (· != "F5") ++
-  (if m.abortedForeign.any (fun d => desc w d.2 e) then ["F5"] else [])
+  -- an abandoned activation is *covered* when, after it was abandoned, a handler of one of its event's ancestors recorded
+  -- a timeout: that handler's cleanup cancels the abandoned event's pending results (C10); otherwise nothing ever does
+  (if (m.aborted.zipIdx).any (fun (d, k) => desc w d.2 e && !m.timedOut.any (fun (t, n) => k < n && desc w d.2 t))
+   then ["F5"] else [])
 
 def busHangSigs (w : World) (m : Mon) (b : BId) : List String :=
   (if m.tripped.any (fun d => d.1 == b) then ["F2"] else []) ++
@@ -232,9 +235,6 @@ def Mon.step (m : Mon) (w : World) (l : Label) (w' : World) : Mon × List Vio :=
   | .peAbort p b e =>
     (match p with
      | .rl _ => ({ m with dropped := m.dropped ++ [(b, e)], ended := m.ended ++ [(b, e)] }, [])   -- run loop cancelled by stop()
-     | .inst i =>
-       ({ m with aborted := m.aborted ++ [(b, e)], ended := m.ended ++ [(b, e)],
-                 abortedForeign := if desc w e (w.inst i).ev then m.abortedForeign else m.abortedForeign ++ [(b, e)] }, [])
      | _ => ({ m with aborted := m.aborted ++ [(b, e)], ended := m.ended ++ [(b, e)] }, []))
   | .peBegin p b e =>
     ({ m with begun := m.begun ++ [(b, e)],
@@ -291,7 +291,8 @@ def Mon.step (m : Mon) (w : World) (l : Label) (w' : World) : Mon × List Vio :=
     (m, if out != .cancelled then late i else [])
   | .hFinish i r =>
     let I := w.inst i
-    let m := if r == .errTimeout then { m with everTimeout := true } else m
+    let m := if r == .errTimeout then
+        { m with everTimeout := true, timedOut := m.timedOut ++ [((w.inst i).ev, m.aborted.length)] } else m
     let frame := (events w).all fun x =>
       if x == I.ev then
         ((w'.ev x).results.map fun y => if y.hid == I.hid && y.bus == I.bus then none else some y) ==
